@@ -357,7 +357,7 @@ class Lattice(keras.layers.Layer):
                     lattice_sizes=self.lattice_sizes, l1=l1, l2=l2))
           else:
             raise ValueError("Unknown custom lattice regularizer: %s" %
-                             regularizer)
+                             (regularizer,))
         else:
           # This is needed for Keras deserialization logic to be aware of our
           # custom objects.
